@@ -640,6 +640,21 @@ def main():
             json.dump({'property': a.prop, 'obligation': o['name'], 'clause': o['text'], 'position': o['pos'], 'solver_result': o['result'],
                        'model': o['model'], 'smt_file': o['smt_file'], 'replay_status': rstatus, 'replay_command': rcmd, 'replay_output': rout}, open(rp, 'w'), indent=1)
             violations.append('VIOLATION property=%s replay=%s%s' % (a.prop, rp, '' if o['model'] else ' no-failing-input-found'))
+    regression = []
+    if a.tier == 'thorough':
+        # the registered replay tests of this property (one per defect found so far) must pass on this tree
+        import subprocess
+        try:
+            for r in json.load(open(V + '/replays.json'))['replays']:
+                if r['property'] != a.prop or any(k.startswith(pf) for k in known for pf in r['prefixes']): continue
+                t1 = time.time(); pr = subprocess.run(r['cmd'], cwd=V, capture_output=True, text=True)
+                print('  replay-test    %-8s %6.2fs          %s' % ('pass' if pr.returncode == 0 else 'FAILED', time.time() - t1, ' '.join(r['cmd'])))
+                regression.append({'name': 'regression replay: ' + ' '.join(r['cmd']), 'result': 'passes on this tree' if pr.returncode == 0 else 'FAILS on this tree', 'seconds': time.time() - t1})
+                if pr.returncode != 0:
+                    rp = '%s/regression_%s.log' % (rp_dir, re.sub(r'\W', '_', ' '.join(r['cmd']))); open(rp, 'w').write(pr.stdout + pr.stderr)
+                    violations.append('VIOLATION property=%s replay=%s' % (a.prop, rp))
+        except Exception as e:
+            tool_errors.append('regression replays could not be run: %s' % e)
     if nproof < cfg.get('min_obligations', 1): tool_errors.append('only %d obligations generated (expected at least %d): contracts did not bind' % (nproof, cfg.get('min_obligations', 1)))
     for k in known_hits: print(k)
     for te in tool_errors: print('TOOL-ERROR', te)
@@ -652,7 +667,7 @@ def main():
               'violations': len(violations),
               'coverage': {'obligations': nproof, 'discharged': ndis + len(known_hits), 'functions_under_contract': funcs, 'per_obligation': [{k: v for k, v in o.items() if k != 'model'} for o in obs],
                            'backends': {'z3-py-' + z3.get_version_string(): len(obs)}, 'solver_seconds': sum(o['seconds'] for o in obs), 'vacuity_guards': {'reachable': nvacok, 'total': nvac},
-                           'known_findings_matched': known_hits or None, 'tool_errors': tool_errors or None, 'bounded_standins': [],
+                           'known_findings_matched': known_hits or None, 'tool_errors': tool_errors or None, 'bounded_standins': regression,
                            'trusted_base': sorted(trusted) + ['pyvc (this front end) and z3', 'mathematical integers, real-valued floats', 'Python semantics of the stated subset (value semantics of and/or, exceptions, optional values)'],
                            'checker_cmd': './check %s --tier %s  (pyvc: symbolic execution of the real Python source, one z3 query per obligation, timeout %ds)' % (a.prop, a.tier, to),
                            'samples': [{k: o[k] for k in ('name', 'text', 'result', 'pos')} for o in obs if o['expect'] == 'unsat'][:4]}}
